@@ -58,6 +58,8 @@ Cases(c, opts) == IF opts.compound THEN c.vals ELSE Singles(c)
 \* a candidate is a sequence of items; an item is a member value (its name) or "bad" (no such name), encoded [k |-> "m"|"bad", v]
 It(v) == [k |-> "m", v |-> v]
 BadIt == [k |-> "bad", v |-> {}]
+UnhashIt == [k |-> "unhash", v |-> {}]      \* an unhashable object (a list, a dict, a bytearray) where a name is expected
+NonStrIt == [k |-> "nonstr", v |-> {}]      \* a hashable non-string (an int, None, a tuple)
 NamesLoad(c, opts, items, single) ==
   LET known == \A i \in 1..Len(items) : items[i].k = "m" /\ items[i].v \in Cases(c, opts)
       nodups == \A i, j \in 1..Len(items) : i # j => items[i] # items[j]
@@ -68,7 +70,7 @@ NamesLoad(c, opts, items, single) ==
 \* can the value be written as a union of allowed cases at all?
 Expressible(c, opts, x) == x = UNION {v \in Cases(c, opts) : v \subseteq x}
 Opts == [single : BOOLEAN, dups : BOOLEAN, compound : BOOLEAN]
-ItemPool(c) == {It(v) : v \in c.vals} \cup {BadIt}
+ItemPool(c) == {It(v) : v \in c.vals} \cup {BadIt, UnhashIt, NonStrIt}
 Candidates(c) == UNION {[1..n -> ItemPool(c)] : n \in 0..2}
 
 (* ------------------------------ enum classes (not flags) ------------------------------ *)
